@@ -514,6 +514,7 @@ def gen_x86_64_xen(rng, force=None):
     if have_pb:
         img.opts["phys_base"] = xphys
     d["rootsrc"] = "+".join(x for x, c in (("opt", rootopt), ("cr3", have_cr3), ("sym", have_sym)) if c) or "none"
+    d["root_pa"] = root_pa
     d["phys_base_opt"] = have_pb
     # a KVADDR root (pgd_l4) is readable through the temporary mapping: inside the direct map, or with phys_base
     img.root_known = bool(rootopt or have_cr3 or (have_sym and (have_pb or root_va >= XEN_DIRECTMAP)))
